@@ -31,6 +31,7 @@ func StrSetEq(xs, ys []string) bool                 { panic("symbolic only") }
 func StrLt(a, b string) bool                        { panic("symbolic only") }
 func StrContains(s, sub string) bool                { panic("symbolic only") }
 func StrHasPrefix(s, p string) bool                 { panic("symbolic only") }
+func StrPlain(s string) bool                        { panic("symbolic only") }
 func MapOrderAll(on bool)                           { panic("symbolic only") }
 func Panics(f func()) bool                          { panic("symbolic only") }
 func Exits(f func()) bool                           { panic("symbolic only") }
